@@ -156,14 +156,14 @@ def _model_cases(tier, seed):
             for p in pats:
                 yield {'bases': h, 'defs': {'m': list(p), 'n': [rnd.random() < 0.5 for _ in h]},
                        'docs': {'m': [rnd.random() < 0.6 for _ in h], 'n': [rnd.random() < 0.6 for _ in h]},
-                       'split': rnd.random() < 0.4, 'generic': False}
+                       'split': rnd.random() < 0.5, 'style': rnd.randrange(4), 'hide': rnd.choice([None, None, 'class', 'member'])}
         else:
             n_plain += 1
             if tier == 'quick' and n_plain % 3:
                 continue
             yield {'bases': h, 'defs': {mem: [rnd.random() < 0.5 for _ in h] for mem in MEMBERS},
                    'docs': {mem: [rnd.random() < 0.6 for _ in h] for mem in MEMBERS},
-                   'split': rnd.random() < 0.4, 'generic': False}
+                   'split': rnd.random() < 0.5, 'style': rnd.randrange(4), 'hide': rnd.choice([None, None, 'class', 'member'])}
 
 
 def _source(case):
@@ -175,6 +175,7 @@ def _source(case):
         mod = 'hmod2' if (case['split'] and i % 2) else 'hmod'
         where[i] = mod
     texts = {}
+    style = case.get('style', 0)     # 0: bare names, 1: Name[int], 2: module.Name, 3: module.Name[int]
     for mod in mods:
         lines = ['from typing import Generic, TypeVar', 'T = TypeVar("T")']
         for i, bs in enumerate(bases):
@@ -183,12 +184,21 @@ def _source(case):
             for b in bs:
                 if where[b] != mod:
                     lines.append(f'from {where[b]} import C{b}')
+                    lines.append(f'import {where[b]}')
         for i, bs in enumerate(bases):
             if where[i] != mod:
                 continue
-            bl = [f'C{b}' for b in bs]
+
+            def spell(b):
+                nm = f'C{b}'
+                if style >= 2 and where[b] != mod:
+                    nm = f'{where[b]}.{nm}'
+                if style in (1, 3):
+                    nm += '[int]'
+                return nm
+            bl = [spell(b) for b in bs]
             lines.append(f'class C{i}({", ".join(bl)}):' if bl else f'class C{i}:')
-            body = []
+            body = ['    def __class_getitem__(cls, item): return cls'] if not bs else []
             for mem in MEMBERS:
                 if defs[mem][i]:
                     body.append(f'    def {mem}(self):')
@@ -224,7 +234,17 @@ def _check_model(case):
             classes[i] = type(f'C{i}', tuple(classes[b] for b in bs), d)
     except TypeError:
         classes = None
-    system = fixtures.build_system([(n, t, False) for n, t in sorted(texts.items())])
+    privacy = []
+    nb = len(case['bases'])
+    if case.get('hide') == 'class' and nb >= 3:
+        privacy = [('HIDDEN', f'{where[nb - 2]}.C{nb - 2}')]
+    elif case.get('hide') == 'member' and nb >= 2:
+        privacy = [('HIDDEN', f'{where[nb - 2]}.C{nb - 2}.m')]
+    system = fixtures.build_system([(n, t, False) for n, t in sorted(texts.items())], privacy)
+    if classes is not None:
+        f_ = _check_tables(system, case, where, classes)
+        if f_ is not None:
+            return f_
     for i, bs in enumerate(case['bases']):
         c = system.allobjects.get(f'{where[i]}.C{i}')
         if c is None:
@@ -259,6 +279,35 @@ def _check_model(case):
                 if doc != wdoc:
                     return {'observed': f'get_docstring(C{i}.{mem}) = {doc!r}', 'required': f'inspect.getdoc: {wdoc!r}',
                             'class': 'docstring'}
+    return None
+
+
+def _check_tables(system, case, where, classes):
+    """inherited-member tables and override notes follow the linearisation: a member is attributed to the class that
+    attribute lookup along the MRO yields; a hidden member or class is not listed but still masks what it overrides"""
+    from pydoctor.templatewriter import util
+    for i, bs in enumerate(case['bases']):
+        c = system.allobjects[f'{where[i]}.C{i}']
+        if not c.isVisible:
+            continue
+        py = classes[i]
+        want = {}
+        for mem in MEMBERS:
+            owner = next((k for k in py.__mro__ if mem in vars(k)), None)
+            if owner is None or owner is py:
+                continue
+            ob = system.allobjects[f'{where[int(owner.__name__[1:])]}.{owner.__name__}.{mem}']
+            if ob.isVisible:
+                want[mem] = owner.__name__
+        got = {}
+        for o in util.inherited_members(c):
+            if o.name in MEMBERS:
+                if o.name in got:
+                    return {'observed': f'C{i}: inherited member {o.name} listed twice', 'required': 'once', 'class': 'tables-dup'}
+                got[o.name] = o.parent.name
+        if got != want:
+            return {'observed': f'C{i} (privacy {case.get("hide")}): inherited members {got}', 'required': f'{want} (attribute lookup along the MRO)',
+                    'class': 'tables'}
     return None
 
 
@@ -299,7 +348,9 @@ def _check_incons(case):
 
 
 HARNESS[f'{M}:Class.mro'] = {'cases': _model_cases, 'check': _check_model,
-    'covers': [f'{M}:Class.find', f'{M}:Inheritable.docsources', f'{M}:get_docstring', f'{M}:compute_mro', f'{M}:Class._init_mro'],
+    'covers': [f'{M}:Class.find', f'{M}:Inheritable.docsources', f'{M}:get_docstring', f'{M}:compute_mro', f'{M}:Class._init_mro',
+               'pydoctor/templatewriter/util.py:unmasked_attrs', 'pydoctor/templatewriter/util.py:nested_bases',
+               'pydoctor/templatewriter/util.py:inherited_members'],
     'bound': '120 (1500) hierarchies of <= 4 classes with members m/n defined and documented at random levels, one or two modules, against CPython type()/inspect.getdoc'}
 HARNESS[f'{M}:Class._init_mro'] = {'cases': _incons_cases, 'check': _check_incons,
     'bound': '3 inconsistent / cyclic hierarchies'}
